@@ -281,11 +281,21 @@ theorem _normalize_eq_model (O : PyMk.Oracle) (l r key : Str) :
       simp only [List.mem_cons, List.not_mem_nil, or_false] at hx
       rcases hx with rfl | rfl <;> simp [ext_canon]
 
+theorem dict_getitem_str (d : List (PyVal × PyVal)) (k : Str) : dict_getitem (.dict d) (.str k) =
+    match dictLookup d (.str k) with | some v => .ok v | none => .error "KeyError" := by
+  simp only [dict_getitem, hashable]
+  cases dictLookup d (.str k) <;> rfl
+
 theorem _get_env_eq_model (d : List (PyVal × PyVal)) (e : Mk.Env) (h : EnvRel d e) (hn : NoNone e) (k : Str) :
     Gen.PySrc._get_env (.dict d) (.str k) = ofRes PyVal.str (Mk.lookupEnv e k) := by
   unfold Gen.PySrc._get_env Mk.lookupEnv
-  simp only [dict_getitem, hashable, h k]
-  trace_state
-  sorry
+  simp only [dict_getitem_str, h k]
+  have c : catches "KeyError" "KeyError" = true := by decide
+  cases hg : e.get? k with
+  | none => simp [c, ofRes, excName]
+  | some o =>
+    cases o with
+    | none => exact absurd hg (hn k)
+    | some v => simp [ofOptStr, ofRes]
 
 end Src
